@@ -31,21 +31,25 @@ pub const MEANINGFUL: [u8; 40] = [0, 1, 2, 3, 4, 5, 8, 9, 10, 11, 14, 15, 16, 31
                                   182, 183, 184, 188, 189, 190, 191, 192, 224, 240, 248, 253, 254, 255];
 
 /// make parts of a byte string RELATE to one another: a byte equal to another byte (or one more / one less), a pair copied from
-/// elsewhere, a byte holding the number of bytes that follow it (or one more / less), a meaningful constant.  For oracles that
+/// elsewhere, a byte holding the number of bytes that follow it (or one more / less), a meaningful constant, a run or the whole
+/// tail turned into constant filler (all 0xff / all 0x00).  For oracles that
 /// are defined on every input, so that any mutation of a case is again a case.
 pub fn relate(b: &mut Vec<u8>, rng: &mut Rng) {
     let n = b.len();
     if n < 2 { return; }
     for _ in 0..rng.range(1, 3) {
         let i = rng.below(n as u64) as usize; let j = rng.below(n as u64) as usize;
-        match rng.below(7) {
+        match rng.below(9) {
             0 => b[i] = b[j],
             1 => b[i] = b[j].wrapping_add(1),
             2 => b[i] = b[j].wrapping_sub(1),
             3 => { if i + 1 < n && j + 1 < n { let (x, y) = (b[j], b[j + 1]); b[i] = x; b[i + 1] = y; } }
             4 => { let rest = n - i - 1; b[i] = (rest as i64 + rng.range(0, 2) as i64 - 1).clamp(0, 255) as u8; }
             5 => { if i + 1 < n { let rest = n - i - 2; let v = (rest as i64 + rng.range(0, 2) as i64 - 1).clamp(0, 4095) as usize; b[i] = (b[i] & 0xf0) | (v >> 8) as u8; b[i + 1] = v as u8; } }
-            _ => b[i] = *rng.pick(&MEANINGFUL),
+            6 => b[i] = *rng.pick(&MEANINGFUL),
+            // constant filler (stuffing): everything from i on, or the run between i and j, is all 0xff / all 0x00
+            7 => { let f = if rng.chance(2, 3) { 0xff } else { 0x00 }; for x in b[i..].iter_mut() { *x = f; } }
+            _ => { let f = if rng.chance(2, 3) { 0xff } else { 0x00 }; let (lo, hi) = (i.min(j), i.max(j)); for x in b[lo..=hi].iter_mut() { *x = f; } }
         }
     }
 }
